@@ -184,7 +184,7 @@ class Judge:
             field, what, text = bad
             case['returned'] = describe(_fields(res))
             ctx.violation('row_mismatch', f'{fn}({name!r}).{field}: {text}', case,
-                          field=field, what=what, **keys)
+                          field=field, aspect=what, **keys)
             return 'mismatch'
         # call history must not matter: bitwise the same answer every time
         if seen == 'call':
@@ -344,14 +344,14 @@ def judge_assemble(ctx, ev):
     bad = cmp_quantity(ev.result, q)
     if bad:
         ctx.violation('assemble_mismatch', f'_assemble_scalar({value!r}, {std!r}, {unit!r}): {bad[1]}',
-                      case, what=bad[0])
+                      case, aspect=bad[0])
 
 
 def judge_reference_wavelength(ctx, ev):
     ctx.event('reference_wavelength')
     case = {'function': 'reference_wavelength'}
     if ev.exc is not None:
-        ctx.violation('reference_wavelength', f'raised {type(ev.exc).__name__}', case, what='raised')
+        ctx.violation('reference_wavelength', f'raised {type(ev.exc).__name__}', case, aspect='raised')
         return
     r = ev.result
     try:
@@ -359,13 +359,13 @@ def judge_reference_wavelength(ctx, ev):
         if ok_shape:
             f, d = si.lookup(r.unit)
     except KeyError:
-        ctx.violation('reference_wavelength', f'unit {r.unit} is not a length', case, what='unit')
+        ctx.violation('reference_wavelength', f'unit {r.unit} is not a length', case, aspect='unit')
         return
     if not ok_shape:
-        ctx.violation('reference_wavelength', f'not a plain scalar: {describe(r)}', case, what='shape')
+        ctx.violation('reference_wavelength', f'not a plain scalar: {describe(r)}', case, aspect='shape')
         return
     if d != (1, 0, 0, 0, 0):
-        ctx.violation('reference_wavelength', f'unit {r.unit} is not a length', case, what='unit')
+        ctx.violation('reference_wavelength', f'unit {r.unit} is not a length', case, aspect='unit')
         return
     got = si.LD(float(r.value)) * si.ld(f)
     err = float(abs(got - LAMBDA_REF_M) / LAMBDA_REF_M)
@@ -373,7 +373,7 @@ def judge_reference_wavelength(ctx, ev):
     if err > 4 * si.EPS64:
         case['got'] = describe(r)
         ctx.violation('reference_wavelength', f'{r.value!r} {r.unit} is not 1.7982 angstrom', case,
-                      what='value')
+                      aspect='value')
 
 
 # ---------------------------------------------------------- attenuation monitor ---
@@ -788,21 +788,32 @@ def run(shard, ctx):
     J = Judge(ctx, A.Atom, A.ScatteringParams)
     origin = {'v': 'direct'}
 
+    def safe(where, f):
+        # an exception of a monitor must never propagate into the code it watches
+        def on_return(ev):
+            try:
+                f(ev)
+            except Exception:  # noqa: BLE001
+                ctx.oracle_error('C20 monitor ' + where)
+        return on_return
+
     tr = Tracer()
     tr.watch(A.Atom.for_isotope, 'Atom.for_isotope',
-             on_return=lambda ev: J.lookup('Atom.for_isotope', ev.args.get('isotope'), ev.result,
-                                           ev.exc, 'traced'))
+             on_return=safe('Atom.for_isotope', lambda ev: J.lookup(
+                 'Atom.for_isotope', ev.args.get('isotope'), ev.result, ev.exc, 'traced')))
     tr.watch(A.ScatteringParams.for_isotope, 'ScatteringParams.for_isotope',
-             on_return=lambda ev: J.lookup('ScatteringParams.for_isotope', ev.args.get('isotope'),
-                                           ev.result, ev.exc, 'traced'))
+             on_return=safe('ScatteringParams.for_isotope', lambda ev: J.lookup(
+                 'ScatteringParams.for_isotope', ev.args.get('isotope'), ev.result, ev.exc, 'traced')))
     tr.watch(A._find_line_with_isotope, '_find_line_with_isotope',
-             on_return=lambda ev: judge_find_line(ctx, ev))
-    tr.watch(A._parse_isotope_name, '_parse_isotope_name', on_return=lambda ev: judge_parse_name(ctx, ev))
-    tr.watch(A._assemble_scalar, '_assemble_scalar', on_return=lambda ev: judge_assemble(ctx, ev))
+             on_return=safe('_find_line_with_isotope', lambda ev: judge_find_line(ctx, ev)))
+    tr.watch(A._parse_isotope_name, '_parse_isotope_name',
+             on_return=safe('_parse_isotope_name', lambda ev: judge_parse_name(ctx, ev)))
+    tr.watch(A._assemble_scalar, '_assemble_scalar',
+             on_return=safe('_assemble_scalar', lambda ev: judge_assemble(ctx, ev)))
     tr.watch(A.reference_wavelength, 'reference_wavelength',
-             on_return=lambda ev: judge_reference_wavelength(ctx, ev))
+             on_return=safe('reference_wavelength', lambda ev: judge_reference_wavelength(ctx, ev)))
     tr.watch(M.Material.attenuation_coefficient, 'Material.attenuation_coefficient',
-             on_return=lambda ev: judge_attenuation(ctx, ev, origin))
+             on_return=safe('attenuation_coefficient', lambda ev: judge_attenuation(ctx, ev, origin)))
 
     entry = {'Atom.for_isotope': A.Atom.for_isotope,
              'ScatteringParams.for_isotope': A.ScatteringParams.for_isotope}
@@ -870,6 +881,19 @@ def run(shard, ctx):
         J.cur = {'kind': 'special', 'base': None}
         for v in specials[idx::nsh]:  # every special name is asked once per run, on both entry points
             ctx.hit('kind:special')
+            # the two table loaders named in the property's anchors are also asked directly: through
+            # Atom.for_isotope a title cell never reaches the masses scan (its "element" is unknown
+            # first); only the scan monitor judges these calls, any outcome of the loader is tallied
+            for helper in ('_load_atomic_weight', '_load_atomic_mass'):
+                h = getattr(A, helper, None)
+                if h is None:
+                    ctx.count('loader_absent:' + helper)
+                    continue
+                try:
+                    h(v)
+                    ctx.count('loader_direct:' + helper + ':returned')
+                except Exception as e:  # noqa: BLE001
+                    ctx.count('loader_direct:' + helper + ':' + type(e).__name__)
             for fn in entry:
                 out, res = call(fn, v)
                 if out.startswith('rejected'):
@@ -907,7 +931,7 @@ def run(shard, ctx):
             if bad:
                 ctx.violation('row_mismatch', f'ScatteringParams.for_isotope({name!r}).{bad[0]}: {bad[2]}',
                               {'function': 'ScatteringParams.for_isotope', 'name': name,
-                               'seen': 'material'}, field=bad[0], what=bad[1],
+                               'seen': 'material'}, field=bad[0], aspect=bad[1],
                               fn='ScatteringParams.for_isotope', seen='material', variant='row')
             return p
 
